@@ -41,8 +41,11 @@ func (e *Evaluator) Template(env envs.Environment, ctx *types.XObject, template 
 				return value.(error)
 			}
 
-			// if not, stringify value and append to the output
-			asText, _ := types.ToXText(env, value)
+			// if not, stringify value and append to the output - a value too large for that is an error like any other
+			asText, xerr := types.ToXText(env, value)
+			if xerr != nil {
+				return xerr
+			}
 			asString := asText.Native()
 
 			if escaping != nil {
